@@ -328,3 +328,34 @@ Proof.
   cbn [check]. intros H. apply zip_all_Forall2 in H.
   eapply Forall2_impl; [|exact H]. cbv beta. intros x out E. apply str_eqb_eq. exact E.
 Qed.
+
+(* heatmap driven as cmd/heatmap.go drives it (UpdateMinMax before the Scaler is assigned, fixed
+   bounds, scaler changed between renders): if the check accepts the final screen, every displayed
+   row reads key, at least one blank, then exactly the blocks of its values under the scaler in
+   force at the LAST render and the range in force *)
+Theorem check_heatseq_sound col uni rlim clim fmn fmx ops lines mp f a cmn cmx :
+  check (IHeatSeq col uni rlim clim fmn fmx ops) (OS lines) = true ->
+  ranges_before_last fmn fmx 0 1 ops = Some (HoTab mp f a, cmn, cmx) ->
+  let mn := fst (eff_range fmn fmx cmn cmx a) in
+  let mx := snd (eff_range fmn fmx cmn cmx a) in
+  let cc := Nat.min (length (a_cols a)) clim in
+  let rc := Nat.min (length (a_rows a)) rlim in
+  forall k r, nth_error (firstn rc (a_rows a)) k = Some r ->
+    exists pad cells,
+      rconcat (fun v => heat_write col uni round53 (scale (m_of mp) round53 v mn mx)) (firstn cc (r_vals r)) = Ok cells /\
+      nth (2 + k) lines [] = vis col (wrap col col_Yellow (r_name r)) ++ pad ++ vis col cells /\
+      pad <> [] /\ Forall (fun x => x = SP) pad.
+Proof.
+  cbn [check]. unfold heat_seq_chk. intros H R. rewrite R in H. cbv zeta.
+  destruct (eff_range fmn fmx cmn cmx a) as [mn mx] eqn:E. cbn [fst snd].
+  apply andb_prop in H as [H1 _]. intros k r Hn.
+  pose proof (all_idx_spec _ _ _ _ _ H1 Hn) as Hr. simpl in Hr. unfold heat_seq_row_chk in Hr.
+  destruct (prefix_drop _ _) as [[|x rest]|] eqn:P; try discriminate Hr.
+  apply prefix_drop_spec in P. apply andb_prop in Hr as [Hx Hc]. apply N.eqb_eq in Hx. subst x.
+  destruct (rconcat _ _) as [cells|]; [|discriminate Hc]. apply str_eqb_eq in Hc.
+  destruct (drop_sp_spec (SP :: rest)) as [pad [Ep [Fp Gp]]].
+  exists pad, cells. split. reflexivity. split.
+  - rewrite P, Ep at 1. rewrite Hc. reflexivity.
+  - split; [|assumption]. intro. subst pad. change (SP :: rest = drop_sp (SP :: rest)) in Ep.
+    rewrite <- Ep in Gp. apply Gp. reflexivity.
+Qed.
